@@ -293,7 +293,11 @@ func (c *consumerGroup) StreamDeleted(stream string, epoch uint64) error {
 	}
 
 	subscribers, ok := c.subscribers[stream]
-	if !ok {
+	if !ok || len(*subscribers) == 0 {
+		// No member is subscribed to the stream (a heap emptied by departed
+		// members is not part of a snapshot): nothing changes for the group,
+		// so the epoch must not change either.
+		delete(c.subscribers, stream)
 		return nil
 	}
 	rebalance := make(map[string]struct{})
